@@ -8,6 +8,7 @@ import (
 	"verif/internal/corpus"
 	"verif/internal/hbref"
 	sc "verif/internal/shapecase"
+	"verif/internal/synthfont"
 )
 
 // The reference implementation is consulted only by the matcher of the known finding
@@ -50,8 +51,19 @@ func referenceClusters(c *sc.Case) ([]int, bool) {
 			text[i] = 0xFFFD
 		}
 	}
-	f := refFace(c)
-	if f == nil {
+	var f *hbref.Face
+	if c.Synth != nil {
+		// generated font: built for this call only (not cached: the C side holds the bytes)
+		b, err := synthfont.Build(*c.Synth)
+		if err != nil {
+			return nil, false
+		}
+		f = hbref.NewFace(b, 0)
+		if f == nil {
+			return nil, false
+		}
+		defer f.Close()
+	} else if f = refFace(c); f == nil {
 		return nil, false
 	}
 	// flag bits: the first five are shared; the port numbers ProduceUnsafeToConcat 0x20 and
